@@ -5,7 +5,6 @@ a ':'-separated key is injective for all naturals and any client id, and the as-
 "%d%d%d%s" collides ((lamport,delim) = (2,10) vs (21,0)) — the latter by `decide`.
 Checked with plain `lean` 4.33.0: axioms ⊆ {propext, Classical.choice, Quot.sound}; ≈ 1 s.
 -/
-    the as-is format "%d%d%d%s" is not. Core only. -/
 
 theorem digitChar_inj {a b : Nat} (ha : a < 10) (hb : b < 10) (h : a.digitChar = b.digitChar) : a = b := by
   have h1 := Nat.toNat_digitChar_sub_48_of_lt_ten ha
